@@ -14,6 +14,7 @@ SEMANTIC = [
     (r"fails to satisfy `callee\.requires", "pre"),
     (r"^(loop )?invariant not satisfied", "inv"),
     (r"^assertion failed", "assert"),
+    (r"^requires not satisfied", "assert"),
     (r"^decreases not satisfied", "decreases"),
     (r"^possible arithmetic (underflow|overflow|underflow/overflow)", "overflow"),
     (r"^possible division by zero", "divzero"),
